@@ -112,9 +112,12 @@ func (x *Exec) defaultTerm(d defSrc, key string, sort Sort, below int) Term {
 				ft = implies(g, ft)
 			}
 			x.c.AddFactAbout(t.S, tTrue, ft, "frame: only fresh objects written in "+key)
-			if gx, ok := x.genGuardsX[g]; ok {
-				if excl := x.rootExcl(key); len(excl) > 0 {
-					fx := fmt.Sprintf("(forall ((r Int)) (! (=> (and (<= r %s) %s) (= (select %s r) (select %s r))) :pattern ((select %s r))))", fa.S, strings.Join(excl, " "), t.S, prev.S, t.S)
+			if gx, ok := x.genGuardsX[g]; ok && x.root != nil && x.root.entrySt != nil {
+				// weaker variant: objects that existed at function entry, except the
+				// contract's frame
+				{
+					excl := x.rootExcl(key)
+					fx := fmt.Sprintf("(forall ((r Int)) (! (=> (and (<= r %s) %s true) (= (select %s r) (select %s r))) :pattern ((select %s r))))", x.root.entrySt.alloc.S, strings.Join(excl, " "), t.S, prev.S, t.S)
 					x.c.AddFactAbout(t.S, tTrue, implies(gx, Term{S: fx, Sort: SBool, N: 12, UB: -1}), "frame: only fresh objects and the contract's frame written in "+key)
 				}
 			}
@@ -182,6 +185,7 @@ type Exec struct {
 	epochCtr int
 	maxDepth int
 	inlineSet bool
+	preserveSorts map[string]Sort // heap arrays of sole-writer fields (solewriter.go): kept across call havocs
 	sweep    bool // zero-annotation safety sweep: infer loop invariants
 	noSafety bool // suppress safety obligations (functional contracts only)
 	cands    []*candidate
